@@ -29,20 +29,31 @@ async fn run(mut s: Sim, mut rng: Rng, len: usize) -> Sim {
         let ix = s.pp_configure(&admin, PpSetting::Deposit(d, f)); s.op(tx(vec![ix])).await; }
     if rng.chance(8, 10) { let ix = s.pp_configure(&admin, PpSetting::BackupLimit(rng.range(1, 4) as u16)); s.op(tx(vec![ix])).await; }
     let mut limit_guess = 4usize;
+    let mut pending: Vec<(K, K)> = vec![];   // (service key, payer) of requests believed pending
     for _ in 0..len {
-        let payer = rng.pick(&users[2..]).clone();
-        let svc = if rng.chance(1, 25) { K::System } else { rng.pick(&svcs).clone() };
-        let honest = match rng.below(20) {
+        let mut payer = rng.pick(&users[2..]).clone();
+        let mut svc = if rng.chance(1, 25) { K::System } else { rng.pick(&svcs).clone() };
+        let settle = rng.chance(3, 4) && !pending.is_empty();
+        let kind = rng.below(21);
+        if settle && (6..=10).contains(&kind) { let (v, p) = rng.pick(&pending).clone(); svc = v; payer = p; }
+        let honest = match kind {
             0..=5 => { // request access
                 let nb = rng.below(limit_guess as u64 + 2) as usize;
                 let backups: Vec<K> = (0..nb).map(|i| K::User(200 + i as u64)).collect();
                 let mode = if rng.chance(1, 2) { s.access_mode(&K::User(300), &svc, rng.below(1000), None) }
                            else { s.access_mode(&K::User(300), &svc, rng.below(1000), Some(&backups)) };
                 let ix = s.pp_request(&payer, &svc, &mode);
-                if rng.chance(1, 8) { s.via_rogue(1, &ix) } else { ix }
+                if rng.chance(1, 8) { s.via_rogue(1, &ix) } else {
+                    if rng.chance(3, 4) { if s.op(tx(vec![ix])).await { pending.push((svc.clone(), payer.clone())); } continue; }
+                    ix }
             }
-            6..=8 => { let ben = if rng.chance(4, 5) { payer.clone() } else { rng.pick(&users).clone() }; s.pp_grant(&sentinel, &svc, &ben) }
-            9..=10 => s.pp_deny(&sentinel, &svc),
+            6..=8 => { let ben = if rng.chance(5, 6) { payer.clone() } else { rng.pick(&users).clone() };
+                       let ix = s.pp_grant(&sentinel, &svc, &ben);
+                       if rng.chance(3, 4) { if s.op(tx(vec![ix])).await { pending.retain(|x| x.0 != svc); } continue; }
+                       ix }
+            9..=10 => { let ix = s.pp_deny(&sentinel, &svc);
+                        if rng.chance(3, 4) { if s.op(tx(vec![ix])).await { pending.retain(|x| x.0 != svc); } continue; }
+                        ix }
             11 => { // prefund the request address around the interesting thresholds
                 let amt = *rng.pick(&[1u64, 890_880, 29_956_000, 29_956_001, 40_000_000, 6_000_000_000]);
                 s.op(Op::Airdrop(K::PpRequest(b(&svc)), amt)).await; continue; }
@@ -57,6 +68,17 @@ async fn run(mut s: Sim, mut rng: Rng, len: usize) -> Sim {
             17 => s.pp_initialize(&payer),
             18 => { // configuration attempted by somebody who is not (or no longer) the admin
                 let who = rng.pick(&users).clone(); s.pp_configure(&who, PpSetting::BackupLimit(3)) }
+            19 => { // two settlements of the same request in one transaction; a request whose payer is the (pre-funded) request address itself
+                match rng.below(3) {
+                    0 => { let a = s.pp_grant(&sentinel, &svc, &payer); let b2 = s.pp_grant(&sentinel, &svc, &payer); s.op(tx(vec![a, b2])).await; }
+                    1 => { let a = s.pp_grant(&sentinel, &svc, &payer); let b2 = s.pp_deny(&sentinel, &svc); s.op(tx(vec![b2, a])).await; }
+                    _ => { let rk = K::PpRequest(b(&svc)); s.op(Op::Airdrop(rk.clone(), 6_000_000_000)).await;
+                           let mode = s.access_mode(&K::User(300), &svc, 7, None);
+                           let ix = s.pp_request(&payer, &svc, &mode).with_key(1, &rk).with_signer(1, false);
+                           s.op(tx(vec![ix])).await;
+                           let g = s.pp_grant(&sentinel, &svc, &rk); s.op(tx(vec![g])).await; }
+                }
+                continue; }
             _ => { // grant where the sentinel meta does not sign but signs another instruction of the same transaction
                 let g = s.pp_grant(&sentinel, &svc, &payer).with_signer(1, false);
                 let other = s.sys_transfer(&sentinel, &payer, 0);
